@@ -42,6 +42,8 @@ let split_on c s = String.split_on_char c s
 
 let time_obs ((sec, ns), off) = Printf.sprintf "ok %s %s %s" (string_of_z sec) (string_of_z ns) (string_of_z off)
 
+let tf b = if b then "t" else "f"
+
 (* ---- s-expressions shared with the Go harness (proto / thrift type and value descriptors) ---- *)
 type sx = Atom of string | List of sx list
 let parse_sx (s : string) : sx =
@@ -126,6 +128,19 @@ let errclass (e : proto_error option) = match e with
 let rec repeat_z n = if n <= 0 then [] else Z0 :: repeat_z (n - 1)
 let big_fuel = nat_of_int 4000
 
+let json_run fn argstr =
+  match fn, String.split_on_char ' ' argstr with
+  | "j.valid", [h] ->
+      let b = bytes_of_hex h in
+      let fuel = nat_of_int (2 * List.length b + 8) in
+      (match json_Valid fuel b with None -> "OUTOFFUEL" | Some r -> tf r) ^ "\t" ^ tf (std_valid b)
+  | "j.escidx", [h; html] ->
+      let b = bytes_of_hex h in
+      let fuel = nat_of_int (List.length b + 2) in
+      (match json_escapeIndex fuel b (html = "1") with None -> "OUTOFFUEL" | Some r -> string_of_z r)
+      ^ "\t" ^ string_of_z (first_index (needs_escape_json (html = "1")) Z0 b)
+  | _ -> "-\t-"   (* not modelled: compared with the oracle only *)
+
 let proto_run fn argstr =
   match fn, split_bar argstr with
   | "p.enc", [ts; vs] ->
@@ -179,7 +194,6 @@ let proto_run fn argstr =
        | OutOfFuel -> "OUTOFFUEL")
   | _ -> "unknown-fn"
 
-let tf b = if b then "t" else "f"
 let both x y = if x = y then tf x else "MODEL-VARIANTS-DIFFER"
 
 let run fn args =
@@ -226,7 +240,9 @@ let () =
       let line = input_line stdin in
       match split_on '\t' line with
       | fn :: args :: _ ->
-          let r = (try (if String.length fn > 2 && String.sub fn 0 2 = "p." then proto_run fn args else run fn (split_on ' ' args))
+          let r = (try (if String.length fn > 2 && String.sub fn 0 2 = "p." then proto_run fn args
+                    else if String.length fn > 2 && String.sub fn 0 2 = "j." then json_run fn args
+                    else run fn (split_on ' ' args))
                    with e -> "model-exception:" ^ Printexc.to_string e) in
           print_endline r
       | _ -> print_endline "bad-line"
